@@ -89,8 +89,8 @@ PROPS = {
     "C05": {
         "modules": ["Qvnt.Props.C05", "Qvnt.Props.Code.C05"],
         "tie": [tie(r".*_op_eq|rotate_eq|negWord_eq|forEach_eq", sources=r"UNSUPPORTED (\w+\.rs: \w+\.rs::(atomic_op|struct)|math/mod\.rs|dispatch\.rs: dispatch\.rs::for_each:)"), tie2(r"quant_\w+_eq|multi_apply_eq|single_apply_eq|parTwins_all", r"UNSUPPORTED (quant\.rs|mod\.rs: operator/(single|multi)/mod\.rs::apply)", creg=True)],
-        "suites": [suite("hist", dict(count=400, max_n=5, steps=14), dict(count=4000, max_n=8, steps=200)),
-                   suite("intnu", dict(count=150), dict(count=3000))],
+        "suites": [suite("hist", dict(count=600, max_n=5, steps=14), dict(count=4000, max_n=8, steps=200)),
+                   suite("intnu", dict(count=250), dict(count=3000))],
         "mismatch_tags": [r"measure.*", r"resetmask", r"setnum.*", r"tensor.*", r"reset", r"probs", r"qstate", r"q2state"],
         "spec_tags": [r"c05\..*"],
         "trusted_base": [TB_TIE2] + [TB_TIE] + TB_COMMON,
@@ -103,7 +103,7 @@ PROPS = {
     "C06": {
         "modules": ["Qvnt.Props.C06", "Qvnt.Props.Code.C06"],
         "tie": [tie2(r"quant_(collapse_mask|rescale|measure_mask|measure|get_absolute|get_probabilities)_eq|creg_new_eq", r"UNSUPPORTED quant\.rs: register/quant\.rs::(collapse_mask|rescale|measure_mask|measure|get_absolute|get_probabilities):", creg=True)],
-        "suites": [suite("meas", dict(count=500, max_n=6), dict(count=15000, max_n=10))],
+        "suites": [suite("meas", dict(count=800, max_n=6), dict(count=15000, max_n=10))],
         "mismatch_tags": [r"measure.*"],
         "spec_tags": [r"c06\..*"],
         "trusted_base": [TB_TIE2] + TB_COMMON,
@@ -116,8 +116,8 @@ PROPS = {
     "C07": {
         "modules": ["Qvnt.Props.C07", "Qvnt.Props.Code.C07"],
         "tie": [tie2(r"quant_(get_probabilities|get_absolute|measure_mask|measure_mask_weights|collapse_mask|rescale|sample_all)_eq|proposal_eq", r"UNSUPPORTED quant\.rs: register/quant\.rs::(collapse_mask|rescale|measure_mask|measure_mask\[weights\]|get_absolute|get_probabilities|sample_all):", creg=True)],
-        "suites": [suite("meas", dict(count=400, max_n=5), dict(count=4000, max_n=8)),
-                   suite("born", dict(count=12, shots=2048), dict(count=300, shots=16384))],
+        "suites": [suite("meas", dict(count=600, max_n=5), dict(count=4000, max_n=8)),
+                   suite("born", dict(count=16, shots=2048), dict(count=300, shots=16384))],
         "mismatch_tags": [r"probs", r"measure.*"],
         "spec_tags": [r"c07\..*", r"c06\.possible"],
         "trusted_base": [TB_TIE2] + TB_COMMON + ["rand::thread_rng + rand_distr::WeightedIndex draw index i with probability weight_i / total; rand_distr::StandardNormal draws are i.i.d. N(0,1) (contract, not verified)"],
@@ -130,7 +130,7 @@ PROPS = {
     "C08": {
         "modules": ["Qvnt.Props.C08", "Qvnt.Props.Code.C08"],
         "tie": [tie(r"forEachPar_eq|forEachTwins_true", sources=r"UNSUPPORTED dispatch\.rs"), tie2(r"parTwins_all|th_and_eq|quant_num_threads_eq", r"UNSUPPORTED (.*parallel arm differs|quant\.rs: register/quant\.rs::(and|num_threads))")],
-        "suites": [suite("c08", dict(count=250, max_n=7), dict(count=2500, max_n=8, big=1))],
+        "suites": [suite("c08", dict(count=400, max_n=7), dict(count=2500, max_n=8, big=1))],
         "mismatch_tags": [r"threads", r"par", r"qreg"],
         "spec_tags": [r"c08\..*"],
         "trusted_base": [TB_TIE2] + [TB_TIE] + TB_COMMON + ["rayon contract: par_iter_mut().enumerate().for_each / into_par_iter().map().collect() run the closure exactly once per index, in any order and grouping"],
@@ -143,7 +143,7 @@ PROPS = {
     "C11": {
         "modules": ["Qvnt.Props.C11", "Qvnt.Props.Code.C11"],
         "tie": [tie3(r"int_process_(apply_gate|gate|if|node|nodes|node_apply)_eq|int_(ast_changes|add_ast|new)_eq|processNode_inv|processApply_macros|foldlM_process|regsOf_eq|argsOf_eq|macro_process(_nested)?_eq|macro_argument_name_eq|macro_new_eq|gate_arm_\w+_eq", r"UNSUPPORTED (mod\.rs: qasm/int/mod\.rs::(process_(apply_gate|gate|if|node|nodes)|ast_changes|add_ast|new):|macros\.rs|gates\.rs)"), tiec(r"parse_\w+|sym_\w+"), tie(r"creg_(set|xor|reset|get)_eq|notW_eq", sources=r"UNSUPPORTED class\.rs"), tie2(r"creg_get_by_mask_eq|quant_(reset_by_mask|measure_mask|reset)_eq|bitsList_eq|sym_(finish|step|reset|new|get_class|get_probabilities)_eq|store_(set|xor)_eq|finish_as_foldlM|mstep_inv", r"UNSUPPORTED (quant\.rs: register/quant\.rs::(reset_by_mask|measure_mask|reset):|class\.rs|bits_iter\.rs|sym\.rs)", creg=True), tie2(r"extop_(push|append)_eq", r"UNSUPPORTED ext_op\.rs"), tie3(r"int_process_(measure|reset|barrier)_eq|int_branch(_with_id)?_eq|int_xor_eq|int_get_[qc]_idx_eq", r"UNSUPPORTED mod\.rs: qasm/int/mod\.rs::(process_(measure|reset|barrier)|branch|branch_with_id|xor|get_[qc]_idx_with_context|get_idx_by_alias):")],
-        "suites": [suite("intnu", dict(count=600), dict(count=20000)), suite("c17", dict(count=150), dict(count=3000))],
+        "suites": [suite("intnu", dict(count=900), dict(count=20000)), suite("c17", dict(count=250), dict(count=3000))],
         "mismatch_tags": INT_STRUCT,
         "spec_tags": [r"refsem\.(psi|creg|run)", r"c11\..*", r"iexpect\.accept", r"isame"],
         "trusted_base": [TB_CANON] + [TB_TIE2] + [TB_TIE_REG] + TB_COMMON,
@@ -156,8 +156,8 @@ PROPS = {
     "C12": {
         "modules": ["Qvnt.Props.C12", "Qvnt.Props.Code.C12"],
         "tie": [tie3(r"int_process_(apply_gate|gate|if|node|nodes|node_apply)_eq|int_(ast_changes|add_ast|new)_eq|processNode_inv|processApply_macros|foldlM_process|regsOf_eq|argsOf_eq|macro_process(_nested)?_eq|macro_argument_name_eq|macro_new_eq|gate_arm_\w+_eq", r"UNSUPPORTED (mod\.rs: qasm/int/mod\.rs::(process_(apply_gate|gate|if|node|nodes)|ast_changes|add_ast|new):|macros\.rs|gates\.rs)"), tiec(r"parse_\w+|sym_\w+")],
-        "suites": [suite("fuzz", dict(count=1500, timeout=120), dict(count=60000, timeout=3000)),
-                   suite("intnu", dict(count=200), dict(count=3000))],
+        "suites": [suite("fuzz", dict(count=2500, timeout=120), dict(count=60000, timeout=3000)),
+                   suite("intnu", dict(count=300), dict(count=3000))],
         "mismatch_tags": [r"i(add|chg)\.result", r"isym\.(new|init|reset|finish)(\.creg)?"],
         "spec_tags": [r"c12\..*"],
         "trusted_base": [TB_CANON] + [TB_TIE2] + TB_COMMON,
@@ -170,7 +170,7 @@ PROPS = {
     "C17": {
         "modules": ["Qvnt.Props.C17", "Qvnt.Props.Code.C18", "Qvnt.Props.Code.C17"],
         "tie": [tie3(r"int_process_(apply_gate|gate|if|node|nodes|node_apply)_eq|int_(ast_changes|add_ast|new)_eq|processNode_inv|processApply_macros|foldlM_process|regsOf_eq|argsOf_eq|macro_process(_nested)?_eq|macro_argument_name_eq|macro_new_eq|gate_arm_\w+_eq", r"UNSUPPORTED (mod\.rs: qasm/int/mod\.rs::(process_(apply_gate|gate|if|node|nodes)|ast_changes|add_ast|new):|macros\.rs|gates\.rs)"), tiec(r"sym_\w+"), tie2(r"extop_(push|append)_eq|sym_(finish|step|reset|new|get_class|get_probabilities)_eq|finish_as_foldlM", r"UNSUPPORTED (ext_op\.rs|sym\.rs)", creg=True), tie3(r"int_(append|prepend)_int_eq", r"UNSUPPORTED mod\.rs: qasm/int/mod\.rs::(append_int|prepend_int):")],
-        "suites": [suite("c17", dict(count=300), dict(count=10000))],
+        "suites": [suite("c17", dict(count=500), dict(count=10000))],
         "mismatch_tags": INT_STRUCT,
         "spec_tags": [r"isame", r"iexpect\.asts", r"c10\.kinds"],
         "trusted_base": [TB_CANON] + [TB_TIE2] + TB_COMMON,
@@ -183,7 +183,7 @@ PROPS = {
     "C18": {
         "modules": ["Qvnt.Props.C18", "Qvnt.Props.Code.C18"],
         "tie": [tie3(r"int_process_(apply_gate|gate|if|node|nodes|node_apply)_eq|int_(ast_changes|add_ast|new)_eq|processNode_inv|processApply_macros|foldlM_process|regsOf_eq|argsOf_eq|macro_process(_nested)?_eq|macro_argument_name_eq|macro_new_eq|gate_arm_\w+_eq", r"UNSUPPORTED (mod\.rs: qasm/int/mod\.rs::(process_(apply_gate|gate|if|node|nodes)|ast_changes|add_ast|new):|macros\.rs|gates\.rs)"), tie3(r"int_(append|prepend)_int_eq|int_process_(qreg|creg)_eq", r"UNSUPPORTED mod\.rs: qasm/int/mod\.rs::(append_int|prepend_int|process_(qreg|creg)):")],
-        "suites": [suite("c18", dict(count=400), dict(count=12000))],
+        "suites": [suite("c18", dict(count=700), dict(count=12000))],
         "mismatch_tags": [r"iadd\.(result|summary|blocks?\d*|tail)", r"inew.*"],
         "spec_tags": [r"iunchanged", r"isame", r"iexpect\.plant"],
         "trusted_base": [TB_TIE2] + TB_COMMON,
@@ -195,7 +195,7 @@ PROPS = {
     },
     "C19": {
         "modules": ["Qvnt.Props.C19"],
-        "suites": [suite("c19", dict(count=24, timeout=200), dict(count=600, timeout=3000))],
+        "suites": [suite("c19", dict(count=40, timeout=200), dict(count=600, timeout=3000))],
         "mismatch_tags": [r"conc.*"],
         "spec_tags": [r"c19\..*"],
         "trusted_base": TB_COMMON + ["std::sync::RwLock: many readers xor one writer, not re-entrant, arbitrary choice among waiting acquirers (writer preference is not modelled); rayon: install runs the job on the pool and lets a waiting worker of another pool run other tasks of its own pool",
@@ -210,8 +210,8 @@ PROPS = {
         "modules": ["Qvnt.Props.C09", "Qvnt.Props.Code.C09"],
         "tie": [tie2(r"pauli_\w+_eq|rotate_\w+_eq|swapmod_\w+_eq|op_\w+_eq|checked_eq|h_(loop|h)_eq|gate_arm_\w+_eq", r"UNSUPPORTED (mod\.rs: operator/mod\.rs|h\.rs|pauli\.rs|rotate\.rs|swap\.rs|gates\.rs|mod\.rs: operator/single/mod\.rs::(from|single_op_checked):)")],
         "suites": [
-            suite("c09", dict(count=2500), dict(count=60000)),
-            suite("int", dict(count=150), dict(count=3000)),
+            suite("c09", dict(count=4000), dict(count=60000)),
+            suite("int", dict(count=250), dict(count=3000)),
         ],
         "mismatch_tags": [r"igate.*", r"iadd.*", r"inew", r"ixor"],
         "spec_tags": [r"c09\..*"],
@@ -225,8 +225,8 @@ PROPS = {
     "C10": {
         "modules": ["Qvnt.Props.C10", "Qvnt.Props.Code.C11", "Qvnt.Props.Code.C10"],
         "tie": [tie3(r"int_process_(apply_gate|gate|if|node|nodes|node_apply)_eq|int_(ast_changes|add_ast|new)_eq|processNode_inv|processApply_macros|foldlM_process|regsOf_eq|argsOf_eq|macro_process(_nested)?_eq|macro_argument_name_eq|macro_new_eq|gate_arm_\w+_eq", r"UNSUPPORTED (mod\.rs: qasm/int/mod\.rs::(process_(apply_gate|gate|if|node|nodes)|ast_changes|add_ast|new):|macros\.rs|gates\.rs)"), tiec(r"parse_\w+"), tie2(r"extop_(push|append)_eq|sym_(finish|step|reset|new|get_class|get_probabilities)_eq|finish_as_foldlM", r"UNSUPPORTED (ext_op\.rs|sym\.rs)", creg=True), tie3(r"int_get_[qc]_idx_eq|fold_idx_eq|int_branch(_with_id)?_eq|int_process_(qreg|creg|barrier|opaque)_eq", r"UNSUPPORTED mod\.rs: qasm/int/mod\.rs::(get_idx_by_alias|get_[qc]_idx_with_context|branch|branch_with_id|process_(qreg|creg|barrier|opaque)):")],
-        "suites": [suite("int", dict(count=500), dict(count=15000)), suite("c10e", dict(count=300), dict(count=6000)),
-                   suite("c10f", dict(count=400), dict(count=12000)), suite("c17", dict(count=150), dict(count=3000))],
+        "suites": [suite("int", dict(count=800), dict(count=15000)), suite("c10e", dict(count=500), dict(count=6000)),
+                   suite("c10f", dict(count=600), dict(count=12000)), suite("c17", dict(count=250), dict(count=3000))],
         "mismatch_tags": INT_STRUCT,
         "spec_tags": [r"refsem\.(psi|creg|run)", r"iexpect\.accept", r"c10\..*", r"isame"],
         "trusted_base": [TB_CANON] + [TB_TIE2] + TB_COMMON,
@@ -239,7 +239,7 @@ PROPS = {
     "C13": {
         "modules": ["Qvnt.Props.C13", "Qvnt.Props.Code.C13"],
         "tie": [tie3(r"int_process_(apply_gate|gate|if|node|nodes|node_apply)_eq|int_(ast_changes|add_ast|new)_eq|processNode_inv|processApply_macros|foldlM_process|regsOf_eq|argsOf_eq|macro_process(_nested)?_eq|macro_argument_name_eq|macro_new_eq|gate_arm_\w+_eq", r"UNSUPPORTED (mod\.rs: qasm/int/mod\.rs::(process_(apply_gate|gate|if|node|nodes)|ast_changes|add_ast|new):|macros\.rs|gates\.rs)"), tiec(r"parse_\w+"), tie3(r"int_check_(ident|reg_size|dup)_eq|int_process_(qreg|creg|measure|reset)_eq|int_get_[qc]_idx_eq|fold_idx_eq", r"UNSUPPORTED mod\.rs: qasm/int/mod\.rs::(check_(ident|reg_size|dup)|process_(qreg|creg|measure|reset)|get_[qc]_idx_with_context|get_idx_by_alias):")],
-        "suites": [suite("c13", dict(count=600), dict(count=20000))],
+        "suites": [suite("c13", dict(count=1000), dict(count=20000))],
         "mismatch_tags": [r"iadd\.result"],
         "spec_tags": [r"iexpect\..*"],
         "trusted_base": [TB_CANON] + [TB_TIE2] + TB_COMMON,
@@ -252,7 +252,7 @@ PROPS = {
     "C15": {
         "modules": ["Qvnt.Props.C15", "Qvnt.Props.Code.C15"],
         "tie": [tie2(r"h_(loop|h)_eq|op_h_eq|qft_qft(_swapped)?_eq|op_qft(_swapped)?_eq|swapped_loop_eq|vec_eq", r"UNSUPPORTED (h\.rs|qft\.rs|mod\.rs: operator/mod\.rs::(h|qft|qft_swapped):|rotate\.rs: operator/single/rotate\.rs::rz:|swap\.rs: operator/single/swap\.rs::swap:)")],
-        "suites": [suite("dft", dict(count=500, max_n=6), dict(count=6000, max_n=9))],
+        "suites": [suite("dft", dict(count=700, max_n=6), dict(count=6000, max_n=9))],
         "mismatch_tags": None,
         "spec_tags": [r"dft"],
         "trusted_base": [TB_TIE2] + TB_COMMON,
@@ -265,7 +265,7 @@ PROPS = {
     "C14": {
         "modules": ["Qvnt.Props.C14", "Qvnt.Props.Code.C14"],
         "tie": [tie(r"creg_(tensor_prod|with_state|set_num|mask_of|num)_eq", sources=r"UNSUPPORTED class\.rs"), tie2(r"quant_(new|with_state|set_num|reset|tensor_prod|get_probabilities)_eq|creg_(mul|mul_assign|new)_eq", r"UNSUPPORTED (quant\.rs: register/quant\.rs::(new|with_state|set_num|reset|tensor_prod|get_probabilities):|class\.rs)", creg=True)],
-        "suites": [suite("reg", dict(count=500, max_n=6), dict(count=10000, max_n=9))],
+        "suites": [suite("reg", dict(count=800, max_n=6), dict(count=10000, max_n=9))],
         "mismatch_tags": [r"qobs.*", r"tensor.*", r"setnum.*", r"probs", r"polar", r"qvreg", r"creg", r"ctensor", r"cmulassign", r"qstate", r"q2state", r"q2reg"],
         "spec_tags": [r"c14\..*"],
         "trusted_base": [TB_TIE2] + [TB_TIE_REG] + TB_COMMON,
@@ -278,7 +278,7 @@ PROPS = {
     "C16": {
         "modules": ["Qvnt.Props.C16", "Qvnt.Props.Code.C16"],
         "tie": [tie2(r"quant_sample_all_eq|surplus_loop_eq|updateSelected_eq_go|proposal_eq|quant_get_probabilities_eq", r"UNSUPPORTED quant\.rs: register/quant\.rs::(sample_all|get_probabilities):")],
-        "suites": [suite("sample", dict(count=600, max_n=6), dict(count=20000, max_n=10))],
+        "suites": [suite("sample", dict(count=1000, max_n=6), dict(count=20000, max_n=10))],
         "mismatch_tags": [r"sample"],
         "spec_tags": [r"c16\..*"],
         "trusted_base": [TB_TIE2] + TB_COMMON,
@@ -292,7 +292,7 @@ PROPS = {
         "modules": ["Qvnt.Props.C20", "Qvnt.Props.Code.C20"],
         "tie": [tie(r"creg_.*_eq|notW_eq", sources=r"UNSUPPORTED class\.rs"), tie2(r"bits_(from|next)_eq|bitsCollect_eq|bitsList_eq|creg_(get_by_mask|mul|mul_assign|new|fmt)_eq|h_(loop|h)_eq|vreg_\w+_eq|quant_get_vreg(_by)?_eq", r"UNSUPPORTED (bits_iter\.rs|class\.rs|h\.rs|virtl\.rs|quant\.rs: register/quant\.rs::get_vreg)", creg=True)],
         "suites": [
-            suite("bits", dict(count=500, timeout=60), dict(count=20000, timeout=600)),
+            suite("bits", dict(count=1000, timeout=60), dict(count=20000, timeout=600)),
         ],
         "mismatch_tags": [r"bitsiter", r"countbits", r"vreg", r"vnew", r"vidx", r"vpred", r"vlist", r"creg", r"cnew", r"cset", r"cxor", r"cgetmask", r"creset", r"cdebug", r"ctensor", r"cmulassign", r"csetnum", r"qvreg", r"qvregby"],
         "spec_tags": [r"c20\..*", r"c14\.size\.vreg"],
@@ -308,7 +308,7 @@ PROPS = {
         "tie": [tie(r".*_(op|isValid|actsOn|new)_eq|rotate_eq|negWord_eq|yIPow_eq|forEach_eq|ctrlTest_iff|count_bits_eq", sources=r"UNSUPPORTED (?!class\.rs|dispatch\.rs: dispatch\.rs::for_each_par)"), tie2(r"single_(apply|from)_eq|multi_apply_eq|quant_apply_eq|h_(loop|h)_eq|pauli_\w+_eq|rotate_\w+_eq|swapmod_\w+_eq|op_\w+_eq|checked_eq|multi_matrix_eq|matrixArr_eq_matrix", r"UNSUPPORTED (mod\.rs: operator/|h\.rs|pauli\.rs|rotate\.rs|swap\.rs|applicable\.rs|quant\.rs: register/quant\.rs::apply:)")],
         "suites": [
             suite("c01x", dict(count=0, max_n=3), dict(count=0, max_n=4)),
-            suite("c01", dict(count=800, max_n=6), dict(count=20000, max_n=9)),
+            suite("c01", dict(count=1200, max_n=6), dict(count=20000, max_n=9)),
         ],
         "mismatch_tags": None,
         "spec_tags": [r"op", r"apply", r"applyeach", r"matrix"],
@@ -322,7 +322,7 @@ PROPS = {
     "C02": {
         "modules": ["Qvnt.Props.C02", "Qvnt.Props.Code.C02"],
         "tie": [tie(r"forEach_eq|ctrlTest_iff|.*_actsOn_eq", sources=r"UNSUPPORTED dispatch\.rs: dispatch\.rs::for_each:"), tie2(r"single_(c|act_on)_eq|multi_(c|act_on)_eq", r"UNSUPPORTED mod\.rs: operator/(single|multi)/mod\.rs::(c|act_on):")],
-        "suites": [suite("c02", dict(count=800, max_n=5), dict(count=20000, max_n=8))],
+        "suites": [suite("c02", dict(count=1200, max_n=5), dict(count=20000, max_n=8))],
         "mismatch_tags": [r"op", r"metactrl", r"metactrl\.acton"],
         "spec_tags": [r"c02\..*"],
         "trusted_base": [TB_TIE2] + [TB_TIE] + TB_COMMON,
@@ -335,7 +335,7 @@ PROPS = {
     "C03": {
         "modules": ["Qvnt.Props.C03", "Qvnt.Props.Code.C03"],
         "tie": [tie(r".*_(dgr|op)_eq|rotate_eq|negWord_eq", sources=r"UNSUPPORTED (\w+\.rs: \w+\.rs::(atomic_op|dgr|this|struct)|math/mod\.rs)"), tie2(r"single_dgr_eq|multi_dgr_eq|multi_matrix_eq|matrixArr_eq_matrix", r"UNSUPPORTED (mod\.rs: operator/(single|multi)/mod\.rs::dgr|applicable\.rs)")],
-        "suites": [suite("c03", dict(count=800, max_n=5), dict(count=20000, max_n=8))],
+        "suites": [suite("c03", dict(count=1200, max_n=5), dict(count=20000, max_n=8))],
         "mismatch_tags": [r"op", r"metadgr", r"metadgr\.(names|acton)"],
         "spec_tags": [r"c03\..*"],
         "trusted_base": [TB_TIE2] + [TB_TIE] + TB_COMMON,
@@ -349,8 +349,8 @@ PROPS = {
         "modules": ["Qvnt.Props.C04", "Qvnt.Props.Code.C04"],
         "tie": [tie2(r"multi_(apply|mul_assign)_eq|single_apply_eq|quant_apply_eq", r"UNSUPPORTED (mod\.rs: operator/(single|multi)/mod\.rs::(apply|mul_assign):|quant\.rs: register/quant\.rs::apply:)")],
         "suites": [
-            suite("c04", dict(count=600, max_n=5), dict(count=6000, max_n=8, long=1)),
-            suite("ops", dict(count=300, max_n=5), dict(count=3000, max_n=7)),
+            suite("c04", dict(count=1000, max_n=5), dict(count=6000, max_n=8, long=1)),
+            suite("ops", dict(count=500, max_n=5), dict(count=3000, max_n=7)),
         ],
         # structure of the built queue + the metamorphic product oracles; kernel-level
         # disagreements (apply / matrix lines) belong to C01
